@@ -355,6 +355,7 @@ func makeOps(sym bool) []op {
 	return []op{
 	createOp("create_ok", false, postingsInput(false, "", Pa("a", "c", "USD/2", amt(sym, "op.amount", "50")))),
 	createOp("create_all", false, postingsInput(false, "", Pa("a", "c", "USD/2", amt(sym, "op.amount", "70")), Pa("c", "a", "USD/2", amt(sym, "op.back", "1")))),
+	createOp("create_self", false, postingsInput(false, "", Pa("a", "a", "USD/2", amt(sym, "op.amount", "20")), Pa("world", "world", "USD/2", amt(sym, "op.back", "3")))),
 	createOp("create_insufficient", true, postingsInput(false, "", Pa("b", "c", "USD/2", amt(sym, "op.amount", "31")))),
 	createOp("create_forced_overdraft", false, postingsInput(true, "", Pa("b", "c", "USD/2", amt(sym, "op.amount", "31")))),
 	createOp("create_ref_conflict", true, postingsInput(false, "ref1", P("world", "c", "USD/2", "1"))),
